@@ -221,3 +221,31 @@ have [q d] := IH (cond_b P b) (cond_sym Ps Nb) Ns reg.
 by rewrite q d quad_two // ?det_two //; exact: regular_stack.
 Qed.
 End HistoryLogp.
+
+(* the textbook conditional is the instance of `cond` in which the universe is (training points ++ test points) and the
+   observation operator selects the training points: posterior mean / covariance of the test block *)
+Section Select.
+Variables (F : fieldType) (n nt : nat).
+Variables (m : 'cV[F]_n) (mt : 'cV[F]_nt) (K : 'M[F]_n) (Ks : 'M[F]_(n, nt)) (Kss : 'M[F]_nt).
+Variables (y : 'cV[F]_n) (N : 'M[F]_n).
+Let P : gstate F (n + nt) := (col_mx m mt, block_mx K Ks Ks^T Kss).
+Let E : 'M[F]_(n, n + nt) := row_mx 1%:M 0.
+
+Lemma innov_select : innov P E N = K + N.
+Proof.
+by rewrite /innov /P /E /= mul_row_block tr_row_mx mul_row_col !mul1mx !mul0mx trmx1 trmx0 mulmx1 mulmx0 !addr0.
+Qed.
+Theorem cond_select :
+  dsubmx (cond P E y N).1 = mt + Ks^T *m invmx (K + N) *m (y - m) /\
+  drsubmx (cond P E y N).2 = Kss - Ks^T *m invmx (K + N) *m Ks.
+Proof.
+rewrite /cond innov_select /P /E /=.
+have ET : (row_mx 1%:M 0 : 'M[F]_(n, n + nt))^T = col_mx 1%:M 0 by rewrite tr_row_mx trmx1 trmx0.
+have SE : block_mx K Ks Ks^T Kss *m col_mx 1%:M 0 = col_mx K Ks^T.
+  by rewrite mul_block_col !mulmx1 !mulmx0 !addr0.
+rewrite ET SE mul_row_col mul1mx mul0mx addr0 !mul_col_mx; split.
+- by rewrite add_col_mx col_mxKd.
+- rewrite -![_ *m row_mx 1%:M 0 *m block_mx _ _ _ _]mulmxA mul_row_block !mul1mx !mul0mx !addr0 !mul_mx_row.
+  by rewrite -/(block_mx _ _ _ _) opp_block_mx add_block_mx block_mxKdr.
+Qed.
+End Select.
